@@ -46,12 +46,21 @@ Theorem C03_permutation_invariant : forall svd eps ws (l l' : list (V3R * V3R)),
 Proof. exact umeyama_permutation. Qed.
 Print Assumptions C03_permutation_invariant.
 
+(* equivariance, PARTIAL: for moved/scaled inputs x' = s1 R1 x + t1, y' = s2 R2 y + t2 the residual of EVERY candidate
+   equals s2^2 times the residual of the pulled-back candidate on the original data, so optimal solutions correspond under
+   exactly that composition; that the returned triple IS the image needs uniqueness of the optimum (not proved) *)
+Theorem C03_equivariant_partial : forall (s1 s2 c : R) (R1 R2 Rm : M3R) (t1 t2 t : V3R) (x y : list V3R),
+  Orth R2 -> s2 <> 0 ->
+  resid c Rm t (map (apply_sim s1 R1 t1) x) (map (apply_sim s2 R2 t2) y) =
+  s2 * s2 * resid (pull_c s1 s2 c) (pull_R R1 R2 Rm) (pull_t s2 R2 Rm t1 t2 t c) x y.
+Proof. exact umeyama_equivariant_partial. Qed.
+Print Assumptions C03_equivariant_partial.
+
 (* non-vacuity: concrete points and a concrete SVD answer satisfy the hypotheses and give a result *)
 Theorem C03_hypotheses_satisfiable :
   svd_at ex_svd (cov_xy ex_pts ex_pts) /\
   exists r t c, umeyama ex_svd (/ 2 ^ 52) false ex_pts ex_pts = Some (r, t, c).
 Proof. exact (conj ex_svd_ok ex_result_exists). Qed.
 Print Assumptions C03_hypotheses_satisfiable.
-(* NOT proved (partial, covered by the correspondence run only): equality of the returned PARAMETERS with the
-   generating ones and equivariance of the returned triple under moving/scaling the inputs - both need uniqueness
-   of the optimum (d2 > d3 or det > 0). *)
+(* NOT proved (covered by the correspondence run only): equality of the returned PARAMETERS with the generating ones, and that
+   the returned triple of moved inputs IS the image of the original one - both need uniqueness of the optimum (d2 > d3 or det > 0). *)
